@@ -77,3 +77,151 @@ pub mod verif_insert_model
         }
     }
 }
+
+
+#[cfg(kani)]
+pub mod verif_unit
+{
+    use super::*;
+    use crate::ticket::verif::*;
+    use std::cmp::PartialEq;
+    use std::clone::Clone;
+
+    fn any_content() -> u8
+    {
+        let c : u8 = kani::any();
+        kani::assume(c <= crate::symsys::EMPTY);
+        c
+    }
+
+    /*  UNIT (C17a): the real RuleHistory::insert + FileStateVec::compare for
+        symbolic vectors of up to 3 tickets, with or without an existing entry
+        for the key, lengths equal or not. */
+    #[kani::proof]
+    #[kani::unwind(5)]
+    #[kani::stub(<crate::ticket::Ticket as PartialEq>::eq, crate::ticket::verif_eq::ticket_eq_words)]
+    #[kani::stub(alloc::alloc::dealloc, crate::stubs::dealloc_noop)]
+    fn unit_history_insert()
+    {
+        let n_old : usize = kani::any();
+        let n_new : usize = kani::any();
+        kani::assume(n_old >= 1 && n_old <= 3 && n_new >= 1 && n_new <= 3);
+        let old = [any_content(), any_content(), any_content()];
+        let new = [any_content(), any_content(), any_content()];
+        let has_entry : bool = kani::any();
+        let key = ticket_foreign(1);
+
+        let mut entries = Vec::with_capacity(2);
+        let mut o = Vec::with_capacity(3);
+        o.push(ticket_of_content(0));
+        entries.push((ticket_foreign(2), FileStateVec::from_ticket_vec(o)));
+        if has_entry
+        {
+            let mut v = Vec::with_capacity(3);
+            let mut i = 0;
+            while i < n_old { v.push(ticket_of_content(old[i])); i += 1; }
+            entries.push((ticket_foreign(1), FileStateVec::from_ticket_vec(v)));
+        }
+        let mut h = RuleHistory { source_to_targets : HashMap { items : entries } };
+
+        let mut v = Vec::with_capacity(3);
+        let mut i = 0;
+        while i < n_new { v.push(ticket_of_content(new[i])); i += 1; }
+        let r = h.insert(key, FileStateVec::from_ticket_vec(v));
+
+        /*  the unrelated entry is never affected */
+        assert!(h.source_to_targets.len() == 2 || (h.source_to_targets.len() == 1 && !has_entry && r.is_err()),
+            "[C17] inserting changed the number of remembered entries unexpectedly");
+        match h.get_file_state_vec(&ticket_foreign(2))
+        {
+            Some(o) => assert!(o.get_ticket(0) == ticket_of_content(0), "[C17] an unrelated history entry changed"),
+            None => assert!(false, "[C17] an unrelated history entry vanished"),
+        }
+        if !has_entry
+        {
+            kani::cover!(true, "fresh insert");
+            assert!(r.is_ok(), "[C17][C01] recording outputs for new sources failed");
+            match h.get_file_state_vec(&ticket_foreign(1))
+            {
+                Some(e) =>
+                {
+                    let mut i = 0;
+                    while i < n_new
+                    {
+                        assert!(e.get_ticket(i) == ticket_of_content(new[i]), "[C01][C02] recorded hashes differ from the ones inserted");
+                        i += 1;
+                    }
+                },
+                None => assert!(false, "[C01][C02] inserted entry cannot be found again"),
+            }
+        }
+        else
+        {
+            /*  existing record kept unchanged whatever happens */
+            match h.get_file_state_vec(&ticket_foreign(1))
+            {
+                Some(e) =>
+                {
+                    let mut i = 0;
+                    while i < n_old
+                    {
+                        assert!(e.get_ticket(i) == ticket_of_content(old[i]), "[C17] the earlier record was modified by a contradicting insert");
+                        i += 1;
+                    }
+                },
+                None => assert!(false, "[C17] the earlier record vanished"),
+            }
+            if n_old != n_new
+            {
+                kani::cover!(true, "length mismatch");
+                match r
+                {
+                    Err(RuleHistoryInsertError::TargetSizesDifferWeird) => {},
+                    _ => assert!(false, "[C17] differing target counts not reported as such"),
+                }
+            }
+            else
+            {
+                let mut ndiff = 0;
+                let mut i = 0;
+                while i < n_new
+                {
+                    if old[i] != new[i] { ndiff += 1; }
+                    i += 1;
+                }
+                match r
+                {
+                    Ok(()) =>
+                    {
+                        kani::cover!(true, "identical re-insert");
+                        assert!(ndiff == 0, "[C17] outputs differing from the record were silently accepted");
+                    },
+                    Err(RuleHistoryInsertError::Contradiction(idx)) =>
+                    {
+                        kani::cover!(true, "contradiction");
+                        assert!(ndiff > 0, "[C17] contradiction reported for identical outputs");
+                        assert!(idx.len() == ndiff, "[C17] contradiction does not list exactly the differing targets");
+                        let mut k = 0;
+                        let mut i = 0;
+                        while i < n_new
+                        {
+                            if old[i] != new[i]
+                            {
+                                if k < idx.len()
+                                {
+                                    assert!(idx[k] == i, "[C17] contradiction lists a wrong target index or a wrong order");
+                                }
+                                k += 1;
+                            }
+                            i += 1;
+                        }
+                        std::mem::forget(idx);
+                    },
+                    Err(RuleHistoryInsertError::TargetSizesDifferWeird) =>
+                        assert!(false, "[C17] equal target counts reported as differing"),
+                }
+            }
+        }
+        std::mem::forget(h);
+    }
+}
